@@ -39,6 +39,7 @@ type Case struct {
 	Modelled bool    `json:"modelled"`
 	PtPer    int     `json:"ptper"`
 	SClean   bool    `json:"sclean"`
+	XShards  bool    `json:"xshards,omitempty"` // the store expands shard and index groups when a data node joins (expand-shards-enable)
 	Cmds     []Cmd   `json:"cmds"`
 	Res      []int   `json:"res"` // 0 ok, 1 error, 2 panic
 	Dumps    []*Dump `json:"dumps"`
@@ -55,12 +56,13 @@ type World struct {
 	cs     *Case
 }
 
-func newWorld(name string, modelled bool, ptper int, sclean bool) *World {
+func newWorld(name string, modelled bool, ptper int, sclean bool, xshards ...bool) *World {
 	c := config.NewMeta()
 	c.PtNumPerNode = uint32(ptper)
 	c.SchemaCleanEn = sclean
+	c.ExpandShardsEnable = len(xshards) > 0 && xshards[0]
 	w := &World{fsm: meta.VerifNewFSM(c), ghost: map[uint64]int64{}, oracle: NewOracle()}
-	w.cs = &Case{Name: name, Modelled: modelled, PtPer: ptper, SClean: sclean, Cmds: []Cmd{}, Res: []int{}, Dumps: []*Dump{}, Oracle: []Fail{}}
+	w.cs = &Case{Name: name, Modelled: modelled, PtPer: ptper, SClean: sclean, XShards: c.ExpandShardsEnable, Cmds: []Cmd{}, Res: []int{}, Dumps: []*Dump{}, Oracle: []Fail{}}
 	w.prev = dumpData(w.fsm.Data(), w.ghost)
 	return w
 }
@@ -488,7 +490,7 @@ func genCase(r *gen.Rand, idx int, extra bool) *Case {
 	if extra {
 		name = fmt.Sprintf("extra-%d", idx)
 	}
-	w := newWorld(name, !extra, r.Range(1, 3), r.Chance(2, 3))
+	w := newWorld(name, !extra, r.Range(1, 3), r.Chance(2, 3), r.Chance(1, 5))
 	n := r.Range(8, 26)
 	if r.Chance(5, 6) { // warm-up: a node, a database with a policy, a measurement
 		w.exec(Cmd{K: "cnode", H: 1, T: 1})
@@ -537,8 +539,8 @@ func finish(w *World) *Case {
 
 func i64(v int64) *int64 { return &v }
 
-func scripted(name string, ptper int, cmds []Cmd) *Case {
-	w := newWorld(name, true, ptper, true)
+func scripted(name string, ptper int, cmds []Cmd, xshards ...bool) *Case {
+	w := newWorld(name, true, ptper, true, xshards...)
 	for _, c := range cmds {
 		res := w.exec(c)
 		if res == 2 || (res == 0 && c.X == "rename" && staleKey(w)) {
@@ -673,6 +675,16 @@ func corpus() []*Case {
 			{K: "droprp", DB: 1, RP: 3}, {K: "urp", DB: 1, RP: 2, M: 3, X: "rename"},
 			{K: "rmnode", ID: 1}, {K: "cdb", DB: 2}, {K: "cnode", H: 1, T: 1}, {K: "cnode", H: 2, T: 2}, {K: "cptv", DB: 2},
 		}),
+		// a store with expand-shards-enable: every node that really joins expands all groups inside the same command
+		scripted("join-expands-groups", 2, []Cmd{
+			{K: "cnode", H: 1, T: 1},
+			{K: "cdb", DB: 1, HasRP: true, RP: 1, D: i64(0), SGD: i64(Hour)},
+			{K: "cmst", DB: 1, RP: 1, M: 1},
+			{K: "csg", DB: 1, RP: 1, TS: t10}, {K: "csg", DB: 1, RP: 1, TS: t10 + Hour, Eng: 1},
+			{K: "cnode", H: 2, T: 2}, {K: "cnode", H: 2, T: 2}, {K: "cnode", H: 3, T: 2},
+			{K: "delsg", DB: 1, RP: 1, ID: 1}, {K: "prunesg", ID: 1}, {K: "prunesg", ID: 5}, {K: "prunesg", ID: 2}, {K: "prunesg", ID: 6},
+			{K: "rmnode", ID: 2}, {K: "cnode", H: 4, T: 4}, {K: "csg", DB: 1, RP: 1, TS: t10}, {K: "restore"}, {K: "cnode", H: 5, T: 5},
+		}, true),
 		scripted("boundaries-and-failures", 2, []Cmd{
 			{K: "cdb", DB: 1, HasRP: true, RP: 1, D: i64(0), SGD: i64(Hour)}, // store not ready
 			{K: "cnode", H: 1, T: 1},
@@ -727,7 +739,7 @@ func main() {
 		if in.PtPer == 0 {
 			in.PtPer = 1
 		}
-		w := newWorld("replay", in.Modelled, in.PtPer, in.SClean)
+		w := newWorld("replay", in.Modelled, in.PtPer, in.SClean, in.XShards)
 		for _, c := range in.Cmds {
 			if w.exec(c) == 2 {
 				break
@@ -765,7 +777,7 @@ func main() {
 			if in.PtPer == 0 {
 				in.PtPer = 1
 			}
-			w := newWorld("corpus:"+e.Name(), in.Modelled, in.PtPer, in.SClean)
+			w := newWorld("corpus:"+e.Name(), in.Modelled, in.PtPer, in.SClean, in.XShards)
 			for _, c := range in.Cmds {
 				if w.exec(c) == 2 {
 					break
